@@ -48,7 +48,8 @@ def run(tier, known):
                 decls, dom + ["(bvsle res #x00000000)"],
                 "(and (not {f[panics]}) (not {f[ret.is.Ok]}) (= {f[ret.is.Err.MaxPositionExceeded]} %s) (= {f[ret.is.Err.AdminAction]} (not %s)) "
                 "(= {f[calls.rotate_log]} (not %s)) (not {f[ret.is.Err.UnknownCode]}))" % (over, over, over), uses,
-                what="Publication::new_position misclassifies the end of the position range")
+                what="Publication::new_position misclassifies the end of the position range",
+                public_replay=("c04", "c04_shared_last_term_trip_reports_max_position_exceeded"))
 
     key = "ExclusivePublication::new_position"
     if s.function(key, havoc=("term_buffer_length",), ignore=("initialize_tail_with_term_id", "set_active_term_count_ordered")):
@@ -72,5 +73,6 @@ def run(tier, known):
                 "(= {f[post.self.term_id]} (bvadd tid #x00000001)) (= {f[post.self.term_offset]} #x00000000) "
                 "(= {f[post.self.active_partition_index]} (ite (= pidx #x00000002) #x00000000 (bvadd pidx #x00000001))) "
                 "{f[calls.set_active_term_count_ordered]} {f[calls.initialize_tail_with_term_id]})))" % (over, over, over, over), uses,
-                what="ExclusivePublication::new_position mishandles the term rotation / position limit")
+                what="ExclusivePublication::new_position mishandles the term rotation / position limit",
+                public_replay=("c04", "c04_exclusive_last_term_trip_reports_max_position_exceeded"))
     return s.finish(bounds=BOUNDS, known=known)
